@@ -208,6 +208,7 @@ def same_unit_string_different_types(ctx, db, r, n):
 
 # ------------------------------------------------------------------------------- equality
 def equality_pool(r):
+    from collections import OrderedDict
     import numpy as np
     from barril.basic.fraction import Fraction, FractionValue
     from barril.curve.curve import Curve
@@ -242,6 +243,15 @@ def equality_pool(r):
         "Array(prefix)": Array([1.0], u1), "Array(other category)": Array("depth" if u1 in ("m", "cm") else None, [1.0, 2.0], u1) if u1 in ("m", "cm") else Array([1.0, 2.0, 9.0], u1),
         "FixedArray(other values)": FixedArray(2, [1.0, 3.0], u1), "Scalar(other category)": Scalar("depth", v, u1) if u1 in ("m", "cm") else Scalar(v + 2, u1),
         "FractionScalar(other fraction)": FractionScalar(FractionValue(1, (1, 4)), u1), "FractionValue(other number)": FractionValue(2, (1, 2)), "Fraction(-1/2)": Fraction(-1, 2),
+        # same value, same unit text, same category text - different quantities (caption; order of the composing categories)
+        "Scalar(unknown,caption)": Scalar(GetUnknownQuantity("Feeeet"), v), "Scalar(unknown,other caption)": Scalar(ObtainQuantity("<unknown>", "Unknown", "API units"), v),
+        "Scalar(unknown,same caption)": Scalar(ObtainQuantity("<unknown>", "Unknown", "Feeeet"), v),
+        "Scalar(derived a/b)": Scalar(Quantity.CreateDerived(OrderedDict([("length", ["m", 1]), ("time", ["s", -1])])), v),
+        "Scalar(derived a/b, categories reordered)": Scalar(Quantity.CreateDerived(OrderedDict([("time", ["s", -1]), ("length", ["m", 1])])), v),
+        "Scalar(derived a/b by arithmetic)": Scalar(v, "m") / Scalar(1.0, "s"),
+        "Quantity(derived a/b, categories reordered)": Quantity.CreateDerived(OrderedDict([("time", ["s", -1]), ("length", ["m", 1])])),
+        "Array(unknown,caption)": Array(GetUnknownQuantity("Feeeet"), [1.0, 2.0]), "Array(unknown,other caption)": Array(GetUnknownQuantity("API units"), [1.0, 2.0]),
+        "FixedArray(unknown,caption)": FixedArray(2, GetUnknownQuantity("Feeeet"), [1.0, 2.0]),
         "None": None, "str": "x", "int": 1, "float": 0.5, "tuple": (1, 2), "list": [1.0, 2.0], "dict": {"a": 1}, "object": object(), "bool": True, "int0": 0, "float1.5": 1.5,
     }  # fmt: skip
     return objs
